@@ -106,7 +106,7 @@ def main():
             notes.append((r['unit'], r['notes']))
         failed_fns = set()
         for cid, c in r['clauses'].items():
-            if c['prop'] != prop:
+            if prop not in c['props']:
                 continue
             obligations += 1
             ok = cid not in r['failed'] and r['status'] != 'undecided'
@@ -126,7 +126,7 @@ def main():
         for p in r['panic'] + r['termination']:
             panic_fns.setdefault(p['fn'], []).append(p)
         for f in r['fns']:
-            fprops = set(r['clauses'][c]['prop'] for c in f['clauses'] if c in r['clauses'])
+            fprops = set(p_ for c in f['clauses'] if c in r['clauses'] for p_ in r['clauses'][c]['props'])
             fprops.add('C08')
             if prop not in fprops:
                 continue
